@@ -47,6 +47,34 @@ def dur_mul(c):
     return [(c.st, Term("mul", val(c, c.args[0]), val(c, c.args[1])))]
 
 
+@first(r"^std::time::Duration::saturating_mul$")
+def dur_sat_mul(c):
+    # agrees with `*` wherever `*` does not overflow (and `*` panics where it does): the same term
+    return [(c.st, Term("mul", val(c, c.args[0]), val(c, c.args[1])))]
+
+
+@first(r"^<std::ops::Range<u(8|16|32|64|size)> as std::iter::Iterator>::(map|fold)::<")
+def range_probe(c):
+    """(opt-in, set by a rule) a closure mapped / folded over an integer range is additionally evaluated in context for the
+    constant indices 0..n, the results are handed to the rule; the call itself is then modelled as usual"""
+    probe = getattr(c.it, "range_probe", None)
+    if probe is not None:
+        op = re.search(r"::(map|fold)::<", c.name).group(1)
+        f = c.args[-1]
+        for i in range(probe["n"]):
+            st = c.st.copy()
+            try:
+                if op == "map":
+                    res = c.call_closure(st, f, [Num(Lin.const(i))], "rp%d" % i)
+                else:
+                    res = c.call_closure(st, f, [Term("in", "acc"), Num(Lin.const(i))], "rp%d" % i)
+            except Exception as e:      # the probe never decides anything by failing
+                res = None
+                probe.setdefault("errors", []).append("%s: %s" % (type(e).__name__, e))
+            probe["out"].append((op, i, c.fr.body.key, res))
+    return c.it.models.lookup_after(c.name, range_probe)(c)
+
+
 @first(r"^std::time::Duration::(from_millis|from_secs|from_micros|from_nanos|new)$")
 def dur_from(c):
     return [(c.st, Term(c.name.rsplit("::", 1)[1], *[val(c, a) for a in c.args]))]
@@ -57,6 +85,15 @@ def dur_as(c):
     # an uninterpreted non-negative number determined by the duration
     t = c.ret_ty()
     lo, hi = int_range(t)
+    probe = getattr(c.it, "range_probe", None)
+    d = val(c, c.args[0])
+    if probe is not None and isinstance(d, Term):
+        # the same duration gives the same number: a variable named after the term (kept small enough for lossless casts)
+        name = "%s{%r}" % (c.name.rsplit("::", 1)[1], d)
+        probe["terms"][name] = d
+        v = Lin.var(name)
+        c.st.sys.add_range(v, 0, 2 ** 62)
+        return [(c.st, Num(v))]
     n = c.it.fresh_num(c.st, lo, hi, "ms")
     return [(c.st, n)]
 
